@@ -318,3 +318,86 @@ Definition list_head {A} (l : list A) : result A :=
   | x :: _ => Ok x
   | [] => Err 4
   end.
+
+(* ==== ChunkedScoresHolder as an OBJECT, its persistence, get_score (vocabulary of the source translations of
+   __init__ / get_score / save_h5 / load_h5: harness/src_functions.py C06_HOLDER_*, Generated/SrcHolderIO.v, proofs
+   Proofs/C06SourceIO.v).  Definitions only. ====
+   The Python object is [pyholder]: its four attributes (size, the two numpy arrays as lists, current_index).  A float
+   score is its order key [skey] (= Z; the key of 0.0 is 0); the translator treats `list skey` (float array) and `list Z`
+   (int array) as different type names, so an exchange of the two arrays is refused.  A model holder h is represented by
+   [holder_obj h] (as in the links of add_score / combine, with the declared size in addition).
+   What the HDF5 file holds while batchie writes / reads it is [shraw]: its datasets and attributes BY NAME, in creation
+   order; [shraw_close] is the representation map to the model's file (list of slots, current_index).
+   Error tags: 1 ValueError (np.zeros of a negative size), 8 ValueError (a.item() on an array whose size is not 1),
+   30 KeyError (no dataset / attribute of that name), 31 create_dataset of an existing name, 32 the stored array is of
+   another kind than the reader expects / the two arrays differ in length / a negative current_index (not a model file). *)
+From Coq Require String.
+Import String.StringSyntax.
+Local Delimit Scope string_scope with string.
+
+Definition skey : Type := Z.
+Record pyholder := mkpyholder { ph_size : Z; ph_scores : list skey; ph_pids : list Z; ph_cur : Z }.
+Definition set_ph_size (o : pyholder) (v : Z) : pyholder := mkpyholder v (ph_scores o) (ph_pids o) (ph_cur o).
+Definition set_ph_scores (o : pyholder) (v : list skey) : pyholder := mkpyholder (ph_size o) v (ph_pids o) (ph_cur o).
+Definition set_ph_pids (o : pyholder) (v : list Z) : pyholder := mkpyholder (ph_size o) (ph_scores o) v (ph_cur o).
+Definition set_ph_cur (o : pyholder) (v : Z) : pyholder := mkpyholder (ph_size o) (ph_scores o) (ph_pids o) v.
+Definition holder_obj (h : holder) : pyholder :=
+  mkpyholder (h_size h) (map snd (h_slots h)) (map fst (h_slots h)) (Z.of_nat (h_cur h)).
+(* cls(...) / ChunkedScoresHolder(...): a fresh instance before __init__ runs (which overwrites all four attributes) *)
+Definition ph_blank : pyholder := mkpyholder 0 [] [] 0.
+(* np.zeros(n, dtype=...) of an int n: ValueError when n is negative *)
+Definition np_zeros_keys (n : Z) : result (list Z) := if n <? 0 then Err 1 else Ok (repeat 0 (Z.to_nat n)).
+(* a == v, elementwise against a scalar *)
+Definition np_eq_scalar_z (a : list Z) (v : Z) : list bool := map (fun x => x =? v) a.
+(* a.item(): the only element of an array of size 1, ValueError otherwise *)
+Definition array_only (a : list Z) : result Z := match a with [x] => Ok x | _ => Err 8 end.
+(* the model of get_score: the score of the ONLY slot with that plate id (no such slot, or several - an unfilled slot has
+   plate id 0 -: ValueError) *)
+Definition h_get_score (h : holder) (pid : Z) : result Z :=
+  match filter (fun sl => fst sl =? pid) (h_slots h) with
+  | [sl] => Ok (snd sl)
+  | _ => Err 8
+  end.
+
+Inductive shval : Type :=
+| SH_F1 (a : list skey)          (* 1-d float *)
+| SH_I1 (a : list Z).            (* 1-d int *)
+Record shraw : Type := { sh_data : list (String.string * shval); sh_attrs : list (String.string * Z) }.
+Definition SK_scores : String.string := "scores"%string.
+Definition SK_plate_ids : String.string := "plate_ids"%string.
+Definition SK_current_index : String.string := "current_index"%string.
+(* h5py.File(fn, "w"): a new, empty file *)
+Definition shraw_empty : shraw := {| sh_data := []; sh_attrs := [] |}.
+Fixpoint sh_find {V : Type} (k : String.string) (l : list (String.string * V)) : option V :=
+  match l with
+  | [] => None
+  | (k', v) :: r => if String.eqb k' k then Some v else sh_find k r
+  end.
+(* f.create_dataset(k, data=v): a new dataset; a name that exists is refused *)
+Definition shraw_create (w : shraw) (k : String.string) (v : shval) : result shraw :=
+  match sh_find k (sh_data w) with
+  | Some _ => Err 31
+  | None => Ok {| sh_data := sh_data w ++ [(k, v)]; sh_attrs := sh_attrs w |}
+  end.
+(* f.attrs[k] = v: set or replace *)
+Fixpoint sh_put (l : list (String.string * Z)) (k : String.string) (v : Z) : list (String.string * Z) :=
+  match l with
+  | [] => [(k, v)]
+  | (k', v') :: r => if String.eqb k' k then (k', v) :: r else (k', v') :: sh_put r k v
+  end.
+Definition shraw_set_attr (w : shraw) (k : String.string) (v : Z) : shraw :=
+  {| sh_data := sh_data w; sh_attrs := sh_put (sh_attrs w) k v |}.
+(* f[k][:], by the kind of array the caller goes on to use;  f.attrs[k] *)
+Definition shraw_read_f1 (w : shraw) (k : String.string) : result (list skey) :=
+  match sh_find k (sh_data w) with Some (SH_F1 a) => Ok a | Some _ => Err 32 | None => Err 30 end.
+Definition shraw_read_i1 (w : shraw) (k : String.string) : result (list Z) :=
+  match sh_find k (sh_data w) with Some (SH_I1 a) => Ok a | Some _ => Err 32 | None => Err 30 end.
+Definition shraw_attr (w : shraw) (k : String.string) : result Z :=
+  match sh_find k (sh_attrs w) with Some v => Ok v | None => Err 30 end.
+(* the representation map  raw file -> the model's file (slots, current_index): both datasets and the attribute are there
+   under their names, the arrays have one length, the index is a natural number *)
+Definition shraw_close (w : shraw) : result (list slot * nat) :=
+  dor sc <- shraw_read_f1 w SK_scores;
+  dor pi <- shraw_read_i1 w SK_plate_ids;
+  dor ci <- shraw_attr w SK_current_index;
+  if (length sc =? length pi)%nat && (0 <=? ci) then Ok (combine pi sc, Z.to_nat ci) else Err 32.
